@@ -210,6 +210,12 @@ impl<'a> MessageParser<'a> {
 
         match extract_result {
             Some((content, consumed)) => {
+                // Field parsers cut components out by byte offset: SWIFT text is ASCII
+                if !content.is_ascii() {
+                    return Err(ParseError::InvalidFormat {
+                        message: format!("Field {} contains non-ASCII characters", tag),
+                    });
+                }
                 self.position += consumed;
                 // Only track fields if duplicates are not allowed
                 if !self.allow_duplicates {
